@@ -24,6 +24,20 @@ import Compass.Model.Json
 
 namespace Compass
 
+/-- the errors of a sub-search that the k-shortest-paths algorithms never absorb: a limit of the
+termination model (`SearchError::TerminationModelFailure`: its `QueryTerminated` source is
+`.terminated`; its `RuntimeError` source would be `.internal` but never occurs,
+`SearchLimits.test_ne_internal`), a Rust panic, which unwinds through every caller, and — in the
+model only — an invalid replay -/
+def ErrKind.stopsQuery : ErrKind → Bool
+  | .terminated _ => true
+  | .panic _ => true
+  -- (model only) a schedule the queue could not have produced is never absorbed either: the replay
+  -- is rejected as a whole
+  | .badSchedule => true
+  | .scheduleExhausted => true
+  | _ => false
+
 /-- `sqrt` of the numeric type (IEEE `f64::sqrt` in the driver) -/
 class HasSqrt (α : Type) where
   sqrt : α → α
@@ -283,9 +297,11 @@ def singleVia (c : Config α) (gcRev : List α) (sim : List Nat → List Nat →
   | .error e => .error e
   | .ok fres =>
     match runVertexOriented cr.inst target (some source) revSched with
-    | .error _ =>
-      -- the reverse search failed: no alternatives, the shortest route alone (before the
-      -- tree-count checks); only the backtrack's own error could still be propagated
+    | .error e =>
+      if e.stopsQuery then .error e   -- `Err(e @ TerminationModelFailure { .. }) => return Err(e)`
+      else
+      -- any other failure of the reverse search: no alternatives, the shortest route alone (before
+      -- the tree-count checks); only the backtrack's own error could still be propagated
       match backtrack source target fres.final.sol (fres.final.solSize + 1) with
       | .error e => .error e
       | .ok tsp => .ok { trees := [fres.final.sol], routes := [tsp].take k,
@@ -384,21 +400,18 @@ def runEdgeWith (c : Config α) (runV : Nat → Option Nat → Except ErrKind (A
               | .error k => .error k
               | .ok routes => .ok { trees := r.trees, routes := routes, iterations := r.iterations + 2 }
 
-/-! ### Yen's algorithm (`yens_algorithm::run`) -/
+/-! ### Yen's algorithm (`yens_algorithm::run`, as repaired) -/
 
-/-- what a k-shortest-paths call does: return a result, return an error, or not return at all -/
+/-- what a k-shortest-paths call does: return a result, return an error, or not return at all.
+(`diverges` is only the fuel exhaustion of the model's `while` loop; `C13.yens_terminates` proves it
+never happens — before the repairs the code did not return for short routes.) -/
 inductive KspOutcome (α : Type) where
   | ok (r : AlgResult α)
   | err (e : ErrKind)
-  /-- the code does not return: `underflow` — `0..len - 2` wrapped to ~2^64 turns on a route of one
-  edge (every turn may push another copy of the best candidate: unbounded memory); `no-progress` —
-  a turn of `while accepted.len() < k` pushed nothing, so every later turn starts from the same
-  state -/
   | diverges (why : String)
 
-/-- loop state of `yens_algorithm::run` -/
+/-- what one turn of `while accepted.len() < k` carries through its spur loop -/
 structure YenState (α : Type) where
-  accepted : List (List (Branch α))
   /-- `best_candidate` (path, cost) -/
   best : Option (List (Branch α) × α)
   /-- `iterations`: number of underlying searches -/
@@ -406,112 +419,128 @@ structure YenState (α : Type) where
   /-- schedules of the `run_a_star` calls still to come -/
   scheds : List (List Nat)
 
-/-- the similarity scan of one candidate against every accepted route (no `break`): whenever an
-accepted route is NOT similar to the candidate, the candidate replaces the best one if it is
-cheaper (or there is none yet) -/
-def yenScan (sim : List Nat → List Nat → Except ErrKind Bool) (cand : List (Branch α)) (cost : α) :
-    List (List (Branch α)) → Option (List (Branch α) × α) →
-      Except ErrKind (Option (List (Branch α) × α))
-  | [], best => .ok best
-  | t :: rest, best =>
+/-- the search instance of a spur search: the forward configuration with an `EdgeCutFrontierModel`
+around its frontier model -/
+def cutCfg (c : Config α) (cut : List Nat) : Config α :=
+  { c.fwd with frontier := FrontierM.edgeCut cut :: c.fwd.frontier }
+
+/-- the edges cut for the spur index `spurIdx` of `prev`: the edge following the root path in
+every accepted route that starts with the same root path -/
+def yenCut (accepted : List (List (Branch α))) (root : List (Branch α)) (spurIdx : Nat) : List Nat :=
+  accepted.filterMap (fun p =>
+    if sameIds root (p.take (spurIdx + 1)) then p[spurIdx + 1]?.map (·.edge) else none)
+
+/-- the similarity scan of one candidate: `true` when it is dissimilar to EVERY accepted route (the
+scan stops at the first similar one; `test_similarity(accepted, candidate)` in that order) -/
+def yenDissimilar (sim : List Nat → List Nat → Except ErrKind Bool) (cand : List (Branch α)) :
+    List (List (Branch α)) → Except ErrKind Bool
+  | [] => .ok true
+  | t :: rest =>
     match sim (t.map (·.edge)) (cand.map (·.edge)) with
     | .error k => .error k
-    | .ok similar =>
-      if similar then yenScan sim cand cost rest best
-      else
-        match best with
-        | none => yenScan sim cand cost rest (some (cand, cost))
-        | some (bp, bc) =>
-          if cost < bc then yenScan sim cand cost rest (some (cand, cost))
-          else yenScan sim cand cost rest (some (bp, bc))
+    | .ok true => .ok false
+    | .ok false => yenDissimilar sim cand rest
 
-/-- one turn of `for spur_idx in 0..prev_accepted_path.len() - 2`.  `cf` is the forward
-configuration; the spur search runs on it with an `EdgeCutFrontierModel` wrapped around its frontier
-model, from the spur vertex, from the INITIAL state (the root path's state is not carried over). -/
-def yenSpur (cf : Config α) (sim : List Nat → List Nat → Except ErrKind Bool) (target : Nat)
-    (prev : List (Branch α)) (st : YenState α) (spurIdx : Nat) : Except ErrKind (YenState α) :=
-  let spurLen := spurIdx + 1
-  let root := prev.take spurLen
+/-- `best_candidate` after a candidate of cost `cost` that passed every test -/
+def yenBetter (best : Option (List (Branch α) × α)) (cand : List (Branch α)) (cost : α) :
+    Option (List (Branch α) × α) :=
+  match best with
+  | none => some (cand, cost)
+  | some (bp, bc) => if cost < bc then some (cand, cost) else some (bp, bc)
+
+/-- one turn of `for spur_idx in 0..prev_accepted_path.len().saturating_sub(2)`.  `c` is the
+configuration (searched forwards).  The spur search runs from the spur vertex from the INITIAL
+state; a failed spur search offers no candidate, unless it was stopped by a limit, which fails the query; the
+spur part is then re-traversed from the root path's last edge and state (a failure drops the
+candidate), and the candidate is kept only if it is loop-free, permitted by the frontier model in
+travel order and dissimilar to every accepted route. -/
+def yenSpur (c : Config α) (sim : List Nat → List Nat → Except ErrKind Bool) (target : Nat)
+    (prev : List (Branch α)) (accepted : List (List (Branch α))) (st : YenState α) (spurIdx : Nat) :
+    Except ErrKind (YenState α) :=
+  let root := prev.take (spurIdx + 1)
   match root.getLast? with
   | none => .error .internal                      -- "root path is empty"
   | some spurEt =>
-    match cf.edges[spurEt.edge]? with
+    match c.edges[spurEt.edge]? with
     | none => .error .network
     | some er =>
-      let spurVertex := er.dst
-      let cut := st.accepted.filterMap (fun p =>
-        if sameIds root (p.take spurLen) then p[spurIdx + 1]?.map (·.edge) else none)
-      let cfCut : Config α := { cf with frontier := FrontierM.edgeCut cut :: cf.frontier }
-      -- the next recorded schedule (a search from the target to itself ignores it)
-      let sched := st.scheds.headD []
-      let scheds' := st.scheds.tail
-      match runVertexOriented cfCut.inst spurVertex (some target) sched with
-      | .error k => .error k
+      -- `iterations += 1` whatever the spur search returns; it consumes the next recorded schedule
+      -- (a search from the target to itself ignores it)
+      let st1 : YenState α := { st with iterations := st.iterations + 1, scheds := st.scheds.tail }
+      match runVertexOriented (cutCfg c (yenCut accepted root spurIdx)).inst er.dst (some target)
+          (st.scheds.headD []) with
+      | .error k =>
+        -- a limit of the termination model stops the query; any other failure (typically "no path"
+        -- once edges are cut) only means that this spur index has no candidate
+        if k.stopsQuery then .error k else .ok st1
       | .ok res =>
         match res.route with
         | none => .error .internal                -- "no empty results should be stored in routes"
         | some spurPath =>
-          let cand := root ++ spurPath
-          let cost := sumList (cand.map (fun b => b.access + b.traversal))
-          match yenScan sim cand cost st.accepted st.best with
-          | .error k => .error k
-          | .ok best' =>
-            .ok { accepted := (match best' with
-                               | some (bp, _) => st.accepted ++ [bp]
-                               | none => st.accepted),
-                  best := best', iterations := st.iterations + 1, scheds := scheds' }
+          -- `reorient_reverse_route(root, spur reversed)`: it reverses its second argument
+          match reorient c.fwd root spurPath.reverse with
+          | .error _ => .ok st1
+          | .ok spurRoute =>
+            let cand := root ++ spurRoute
+            match routeContainsLoop c.fwd cand with
+            | .error k => .error k
+            | .ok true => .ok st1
+            | .ok false =>
+              if !routePermitted c.fwd cand (initialState c.fwd.feats) none then .ok st1
+              else
+                match yenDissimilar sim cand accepted with
+                | .error k => .error k
+                | .ok false => .ok st1
+                | .ok true =>
+                  .ok { st1 with best := yenBetter st.best cand
+                                   (sumList (cand.map (fun b => b.access + b.traversal))) }
 
 /-- the `for` loop over the given spur indices (stops at the first error, as `?` does) -/
-def yenFor (cf : Config α) (sim : List Nat → List Nat → Except ErrKind Bool) (target : Nat)
-    (prev : List (Branch α)) : List Nat → YenState α → Except ErrKind (YenState α)
+def yenFor (c : Config α) (sim : List Nat → List Nat → Except ErrKind Bool) (target : Nat)
+    (prev : List (Branch α)) (accepted : List (List (Branch α))) :
+    List Nat → YenState α → Except ErrKind (YenState α)
   | [], st => .ok st
   | i :: is, st =>
-    match yenSpur cf sim target prev st i with
+    match yenSpur c sim target prev accepted st i with
     | .error k => .error k
-    | .ok st' => yenFor cf sim target prev is st'
+    | .ok st' => yenFor c sim target prev accepted is st'
 
-/-- `while accepted.len() < query.k { … }`.  A turn that pushes at least one route strictly
-lengthens `accepted`, so `fuel = k` turns suffice; a turn that pushes nothing is `diverges
-"no-progress"`; a previous route of fewer than two edges makes `len - 2` wrap (release build) to a
-range of about 2^64 turns: if its first turns succeed the outcome is `diverges "underflow"`. -/
-def yenWhile (cf : Config α) (sim : List Nat → List Nat → Except ErrKind Bool) (term : KspTerm)
-    (target k : Nat) (tree : Nat → Option (Branch α)) : Nat → YenState α → KspOutcome α
-  | 0, _ => .diverges "fuel"
-  | fuel + 1, st =>
-    if st.accepted.length < k then
-      if term.terminate k st.accepted.length then
-        .ok { trees := [tree], routes := st.accepted, iterations := st.iterations }
+/-- `while accepted.len() < query.k { … }`: a turn runs the spur loop over the most recently
+accepted route and accepts the best candidate once, after all spur indices; a turn that accepts
+nothing ends the loop.  Every turn that goes on has lengthened `accepted`, so `fuel = k` turns
+suffice.  `routes.take(k)` at the end. -/
+def yenWhile (c : Config α) (sim : List Nat → List Nat → Except ErrKind Bool) (term : KspTerm)
+    (target k : Nat) (tree : Nat → Option (Branch α)) :
+    Nat → List (List (Branch α)) → Nat → List (List Nat) → KspOutcome α
+  | 0, _, _, _ => .diverges "fuel"
+  | fuel + 1, accepted, iterations, scheds =>
+    if accepted.length < k then
+      if term.terminate k accepted.length then
+        .ok { trees := [tree], routes := accepted.take k, iterations := iterations }
       else
-        match st.accepted.getLast? with
+        match accepted.getLast? with
         | none => .err .internal                  -- "at least one route should be in routes"
         | some prev =>
-          let st0 := { st with best := none }
-          if prev.length < 2 then
-            match yenFor cf sim target prev [0, 1, 2, 3] st0 with
-            | .error e => .err e
-            | .ok _ => .diverges "underflow"
-          else
-            match yenFor cf sim target prev (List.range (prev.length - 2)) st0 with
-            | .error e => .err e
-            | .ok st' =>
-              if st'.accepted.length = st.accepted.length then .diverges "no-progress"
-              else yenWhile cf sim term target k tree fuel st'
-    else .ok { trees := [tree], routes := st.accepted, iterations := st.iterations }
+          match yenFor c sim target prev accepted (List.range (prev.length - 2))
+              { best := none, iterations := iterations, scheds := scheds } with
+          | .error e => .err e
+          | .ok st' =>
+            match st'.best with
+            | some (bp, _) =>
+              yenWhile c sim term target k tree fuel (accepted ++ [bp]) st'.iterations st'.scheds
+            | none =>
+              .ok { trees := [tree], routes := accepted.take k, iterations := st'.iterations }
+    else .ok { trees := [tree], routes := accepted.take k, iterations := iterations }
 
 /-- `yens_algorithm::run`; `scheds` are the schedules of the successive `run_a_star` calls -/
 def yens (c : Config α) (sim : List Nat → List Nat → Except ErrKind Bool) (term : KspTerm)
     (source target k : Nat) (scheds : List (List Nat)) : KspOutcome α :=
-  let cf := c.fwd
-  let sched0 := scheds.headD []
-  let rest := scheds.tail
-  match runVertexOriented cf.inst source (some target) sched0 with
+  match runVertexOriented c.fwd.inst source (some target) (scheds.headD []) with
   | .error e => .err e
   | .ok res =>
     match res.route with
     | none => .ok { trees := [], routes := [], iterations := 0 }   -- `routes.is_empty()`: default result
-    | some shortest =>
-      yenWhile cf sim term target k res.final.sol (k + 1)
-        { accepted := [shortest], best := none, iterations := 1, scheds := rest }
+    | some shortest => yenWhile c sim term target k res.final.sol (k + 1) [shortest] 1 scheds.tail
 
 /-- the `Yens` arm of `SearchAlgorithm::run_vertex_oriented` -/
 def yensVertex (c : Config α) (sim : List Nat → List Nat → Except ErrKind Bool)
